@@ -19,6 +19,13 @@ func (v *FnVC) call(fr *frame, st *State, x ssa.CallInstruction) Val {
 			// a call through a function-typed parameter: called(p) / errSeen(p)
 			k := "param:" + par.Name()
 			st.ghost["called#"+k] = tTrue
+			{
+				n := tZero
+				if t, ok := st.ghost["count#"+k]; ok {
+					n = t
+				}
+				st.ghost["count#"+k] = v.sc.Define("ghostn", Add(n, IntLit(1)))
+			}
 			sig := x.Common().Signature().Results()
 			if n := sig.Len(); n > 0 && isErrorType(sig.At(n-1).Type()) {
 				var ev Val = res
@@ -340,7 +347,7 @@ func (v *FnVC) canInline(fr *frame, callee *ssa.Function) bool {
 		return false
 	}
 	n := 0
-	ownClosure := callee.Parent() != nil && isAncestor(v.fn, callee) && v.w.Contracts.ByFunc[callee] == nil
+	ownClosure := callee.Parent() != nil && isAncestor(v.fn, callee) && (v.w.Contracts.ByFunc[callee] == nil || v.w.Contracts.ByFunc[callee].Inline)
 	for _, b := range callee.Blocks {
 		n += len(b.Instrs)
 		for _, s := range b.Succs {
@@ -374,7 +381,7 @@ func (v *FnVC) canInline(fr *frame, callee *ssa.Function) bool {
 func (v *FnVC) inline(fr *frame, st *State, callee *ssa.Function, args, bind []Val, rt types.Type) Val {
 	reach := fr.reach[fr.curBlock.Index]
 	sub := &frame{fn: callee, depth: fr.depth + 1, params: args, freeVars: bind, entry: st.clone()}
-	sub.own = (fr.top || fr.own || fr.ownCtx) && callee.Parent() != nil && isAncestor(v.fn, callee) && callee.Name() != "" && v.w.Contracts.ByFunc[callee] == nil
+	sub.own = (fr.top || fr.own || fr.ownCtx) && callee.Parent() != nil && isAncestor(v.fn, callee) && callee.Name() != "" && (v.w.Contracts.ByFunc[callee] == nil || v.w.Contracts.ByFunc[callee].Inline)
 	// a helper that only calls the function it is given (common.WriteBlockBody): the closures of the verified function
 	// that it calls back are still part of that function's body
 	sub.ownCtx = (fr.top || fr.own || fr.ownCtx) && !sub.own && takesFunc(callee)
